@@ -93,7 +93,7 @@ def allMulti : List Nat → List (List Nat)
 
 /-- keep the entries of `l` whose position is in `keep` (ascending position order) -/
 def project {α : Type} (l : List α) (keep : List Nat) : List α :=
-  (l.zipIdx.filter fun (_, i) => keep.contains i).map (·.1)
+  (l.zipIdx.filter fun xp => keep.contains xp.2).map (·.1)
 
 /-- raw `np.sum(ps.reshape(shape), axis = removed axes).flatten()` and its shape -/
 def marginalRaw (ps : List Rat) (shape : List Nat) (keep : List Nat) : List Nat × List Rat :=
@@ -115,10 +115,13 @@ def marginalize (d : Dist) (remain : List Nat) : Except Err Dist := do
 def condValue (idxs vals : List Nat) (pos : Nat) : Option Nat :=
   ((idxs.zip vals).reverse.find? fun (i, _) => i = pos).map (·.2)
 
+def condOk (idxs vals : List Nat) (x pos : Nat) : Bool :=
+  match condValue idxs vals pos with
+  | some v => x = v
+  | none => true
+
 def matchesCond (mi : List Nat) (idxs vals : List Nat) : Bool :=
-  mi.zipIdx.all fun (x, pos) => match condValue idxs vals pos with
-    | some v => x = v
-    | none => true
+  mi.zipIdx.all fun xp => condOk idxs vals xp.1 xp.2
 
 /-- raw slice of `conditionalize` before normalisation, and the new shape -/
 def conditionalRaw (ps : List Rat) (shape : List Nat) (idxs vals : List Nat) :
